@@ -120,6 +120,9 @@ Tag World::foreign_tag(int b, int slot) {
 // + name) T characters long; T is drawn next to powers of two.  Path and name lengths are where fixed-size buffers meet user input.
 std::string long_name(int len) { std::string n = "L" + std::to_string(len) + "_"; while ((int) n.size() < len) n += (char) ('a' + (n.size() % 26)); n.resize((size_t) (len < 1 ? 1 : len)); return n; }
 std::string World::resolve_name(const std::string &s, const std::string &container) {
+    // a quarter of the creates that follow a delete give the new entity the name the deleted one had (of whatever kind it was): a
+    // program that replaces something deletes it and creates its successor under the same name
+    if (!last_deleted_name.empty() && cur >= 0 && (size_t) cur < plan.ops.size() && ((plan.ops[(size_t) cur].sub >> 17) & 3) == 0) { cnt.inc("names.reused_name_of_deleted"); return last_deleted_name; }
     if (s.compare(0, 5, "@fit:") != 0) return s;
     int T = atoi(s.c_str() + 5);
     int len = T - (int) container.size() - 1;
@@ -279,6 +282,125 @@ void World::take_victim_handles(const std::string &id) {
 
 #define VICTIM(kindno, member, ent) do { Kept k; k.kind = kindno; k.member = ent; k.id = ent.id(); k.session = session; del_handles.push_back(k); } while (0)
 
+// A delete call by handle whose argument is a perfectly valid entity - of another container.  Half of the time one is chosen that
+// shares its name with something the addressed container does hold: which entity a handle designates is a question of identity.
+// Whatever the call answers (false, an exception), C04's "every entity that was not deleted is left exactly as it was" must hold.
+int World::del_misdirected(const Op &op) {
+    if (mode != 0) return 2;
+    // the variant drawn may have nothing to work with in this file: try the others in turn
+    for (int k = 0; k < 11; k++) { int rc = del_misdirected_v(op, (int) ((((unsigned) op.a[2]) + (unsigned) k) % 11)); if (rc != 2) { cnt.inc("misdirected." + arg_class); return rc; } }
+    return 2;
+}
+int World::del_misdirected_v(const Op &op, int v) {
+    const int *a = op.a;
+    Block L = blk(a[0]); if (!L) return 2;
+    Block F = blk(a[0] + 1);
+    bool two = F && F.id() != L.id();
+    bool want_namesake = (a[3] & 1) == 0;
+    expect_unchanged = "C04.untouched";
+    // the block-level variants need a second block that holds an entity of the kind, preferably a namesake of one the addressed block holds:
+    // where the file has none the op builds it first (ordinary, accepted creates), takes a fresh observation as the baseline, and only then
+    // makes the call that designates the foreign entity
+#define PICK_FOREIGN(T, list_expr, has_name, has_id, create_in) T x; { bool got = false, built = false; \
+        if (!two) { if (f.hasBlock("the other block")) { expect_unchanged.clear(); return 2; } F = f.createBlock("the other block", "t"); two = true; built = true; } \
+        std::vector<T> all = F.list_expr(); \
+        if (all.empty()) { std::vector<T> mine = L.list_expr(); std::string nm = mine.empty() ? std::string("nn") : mine[((unsigned) a[1]) % mine.size()].name(); { Block &B = F; (void) create_in; } built = true; all = F.list_expr(); } \
+        if (want_namesake) for (auto &c : all) if (L.has_name(c.name()) && !L.has_id(c.id())) { x = c; got = true; break; } \
+        if (!got && !all.empty()) { x = all[((unsigned) a[1]) % all.size()]; got = !L.has_id(x.id()); \
+            if (got && want_namesake && !L.has_name(x.name())) { std::string nm = x.name(); { Block &B = L; (void) create_in; } built = true; } } \
+        if (!got) { expect_unchanged.clear(); return 2; } \
+        if (L.has_name(x.name())) cnt.inc("misdirected.namesake"); \
+        if (built && !blind) { last = obs(); have_last = true; if (failed()) return 0; } }
+    switch (v) {
+    case 0: { PICK_FOREIGN(Source, sources, hasSource, hasSource, B.createSource(nm, "t")) arg_class = "Block::deleteSource(foreign)"; TRY((void) L.deleteSource(x)); }
+    case 1: { PICK_FOREIGN(DataArray, dataArrays, hasDataArray, hasDataArray, B.createDataArray(nm, "t", DataType::Double, NDSize({2}))) arg_class = "Block::deleteDataArray(foreign)"; TRY((void) L.deleteDataArray(x)); }
+    case 2: { PICK_FOREIGN(DataFrame, dataFrames, hasDataFrame, hasDataFrame, B.createDataFrame(nm, "t", std::vector<Column>{Column{"c", "", DataType::Double}})) arg_class = "Block::deleteDataFrame(foreign)"; TRY((void) L.deleteDataFrame(x)); }
+    case 3: { PICK_FOREIGN(Tag, tags, hasTag, hasTag, B.createTag(nm, "t", std::vector<double>{1.0})) arg_class = "Block::deleteTag(foreign)"; TRY((void) L.deleteTag(x)); }
+    case 4: { PICK_FOREIGN(MultiTag, multiTags, hasMultiTag, hasMultiTag, B.createMultiTag(nm, "t", B.dataArrayCount() ? B.getDataArray((ndsize_t) 0) : B.createDataArray("positions of " + nm, "t", DataType::Double, NDSize({2, 1})))) arg_class = "Block::deleteMultiTag(foreign)"; TRY((void) L.deleteMultiTag(x)); }
+    case 5: { PICK_FOREIGN(Group, groups, hasGroup, hasGroup, B.createGroup(nm, "t")) arg_class = "Block::deleteGroup(foreign)"; TRY((void) L.deleteGroup(x)); }
+    case 6: {   // a source handed a source that is not its child (a sibling, a cousin, one of another block)
+        std::vector<Source> all = all_sources(L); if (two) { std::vector<Source> o = all_sources(F); all.insert(all.end(), o.begin(), o.end()); }
+        if (all.size() < 2) { expect_unchanged.clear(); return 2; }
+        Source par = all[((unsigned) a[1]) % all.size()], x; bool got = false;
+        if (want_namesake) for (auto &c : all) if (c.id() != par.id() && par.hasSource(c.name()) && !par.hasSource(c.id())) { x = c; got = true; cnt.inc("misdirected.namesake"); break; }
+        if (!got) { x = all[((unsigned) a[4]) % all.size()]; got = x.id() != par.id() && !par.hasSource(x.id()); }
+        if (!got) { expect_unchanged.clear(); return 2; }
+        arg_class = "Source::deleteSource(not-a-child)"; TRY((void) par.deleteSource(x));
+    }
+    case 7: case 8: {   // a section (or the file) handed a section that is not its child
+        std::vector<Section> all = all_sections(); if (all.size() < 2) { expect_unchanged.clear(); return 2; }
+        if (v == 8) {
+            Section x; bool got = false;
+            for (size_t i = 0; i < all.size(); i++) { Section c = all[(i + (unsigned) a[1]) % all.size()]; if (c.parent() && (!want_namesake || f.hasSection(c.name()))) { x = c; got = true; break; } }
+            if (!got) { expect_unchanged.clear(); return 2; }
+            arg_class = "File::deleteSection(nested)"; TRY((void) f.deleteSection(x));
+        }
+        Section par = all[((unsigned) a[1]) % all.size()], x; bool got = false;
+        if (want_namesake) for (auto &c : all) if (c.id() != par.id() && par.hasSection(c.name()) && !par.hasSection(c.id())) { x = c; got = true; cnt.inc("misdirected.namesake"); break; }
+        if (!got) { x = all[((unsigned) a[4]) % all.size()]; got = x.id() != par.id() && !par.hasSection(x.id()); }
+        if (!got) { expect_unchanged.clear(); return 2; }
+        arg_class = "Section::deleteSection(not-a-child)"; TRY((void) par.deleteSection(x));
+    }
+    case 9: {   // a section handed a property of another section
+        std::vector<Section> all = all_sections(); if (all.size() < 2) { expect_unchanged.clear(); return 2; }
+        Section par = all[((unsigned) a[1]) % all.size()]; Property x; bool got = false;
+        for (size_t i = 0; i < all.size() && !got; i++) { Section o = all[(i + (unsigned) a[4]) % all.size()]; if (o.id() == par.id()) continue;
+            for (auto &p : o.properties()) if (!par.hasProperty(p.id()) && (!want_namesake || par.hasProperty(p.name()))) { x = p; got = true; break; } }
+        if (!got) { expect_unchanged.clear(); return 2; }
+        arg_class = "Section::deleteProperty(foreign)"; TRY((void) par.deleteProperty(x));
+    }
+    case 10: {  // a tag handed a feature of another tag
+        std::vector<Tag> ts = L.tags(); if (two) { std::vector<Tag> o = F.tags(); ts.insert(ts.end(), o.begin(), o.end()); }
+        if (ts.size() < 2) { expect_unchanged.clear(); return 2; }
+        Tag t = ts[((unsigned) a[1]) % ts.size()]; Feature x; bool got = false;
+        for (size_t i = 0; i < ts.size() && !got; i++) { Tag o = ts[(i + (unsigned) a[4]) % ts.size()]; if (o.id() == t.id()) continue; if (o.featureCount()) { x = o.getFeature((size_t) 0); got = !t.hasFeature(x.id()); } }
+        if (!got) { expect_unchanged.clear(); return 2; }
+        arg_class = "Tag::deleteFeature(foreign)"; TRY((void) t.deleteFeature(x));
+    }
+    default: break;
+    }
+    expect_unchanged.clear();
+    return 2;
+#undef PICK_FOREIGN
+}
+
+// A program replaces something: it deletes a member of a container and creates the successor under the same name - through handles it
+// looks up for the purpose, while other handles to the same container (the long-lived ones of this session) stay around.  Nothing is
+// predicted: after the delete a fresh observation becomes the baseline, after the create the usual lookup-agreement, order and
+// long-lived-handle oracles have their say.
+int World::replace_member(const Op &op) {
+    const int *a = op.a;
+    if (mode != 0) return 2;
+    int kind = ((unsigned) a[2]) % 8;
+    bool by_id = (a[3] & 1) != 0;
+    std::string nm;
+    arg_class = "kind=" + std::to_string(kind) + (by_id ? ",by-id" : ",by-name");
+    try {
+        if (kind <= 1) {
+            std::vector<Section> all = all_sections(); if (all.empty()) return 2;
+            Section s = all[((unsigned) a[0]) % all.size()];                    // a handle of its own, not the session's long-lived one
+            if (kind == 0) { ndsize_t n = s.propertyCount(); if (!n) return 2; Property p = s.getProperty(((unsigned) a[1]) % n); nm = p.name(); std::string id = p.id(); p = Property();
+                if (!s.deleteProperty(by_id ? id : nm)) return 2; if (!blind) { last = obs(); have_last = true; if (failed()) return 0; } s.createProperty(nm, Variant(std::string("successor"))); }
+            else { ndsize_t n = s.sectionCount(); if (!n) return 2; Section c = s.getSection(((unsigned) a[1]) % n); nm = c.name(); std::string id = c.id(); c = Section();
+                if (!s.deleteSection(by_id ? id : nm)) return 2; if (!blind) { last = obs(); have_last = true; if (failed()) return 0; } s.createSection(nm, "t"); }
+        } else {
+            ndsize_t nb = f.blockCount(); if (!nb) return 2;
+            Block b = f.getBlock(((unsigned) a[0]) % nb);
+#define REPLACE(countf, getf, delf, create_expr) { ndsize_t n = b.countf(); if (!n) return 2; auto e = b.getf(((unsigned) a[1]) % n); nm = e.name(); std::string id = e.id(); e = decltype(e)(); \
+                if (!b.delf(by_id ? id : nm)) return 2; if (!blind) { last = obs(); have_last = true; if (failed()) return 0; } create_expr; }
+            if (kind == 2) REPLACE(sourceCount, getSource, deleteSource, b.createSource(nm, "t"))
+            else if (kind == 3) REPLACE(dataArrayCount, getDataArray, deleteDataArray, b.createDataArray(nm, "t", DataType::Double, NDSize({2})))
+            else if (kind == 4) REPLACE(tagCount, getTag, deleteTag, b.createTag(nm, "t", std::vector<double>{1.0}))
+            else if (kind == 5) REPLACE(groupCount, getGroup, deleteGroup, b.createGroup(nm, "t"))
+            else if (kind == 6) REPLACE(dataFrameCount, getDataFrame, deleteDataFrame, b.createDataFrame(nm, "t", std::vector<Column>{Column{"c", "", DataType::Double}}))
+            else { if (!b.dataArrayCount()) return 2; REPLACE(multiTagCount, getMultiTag, deleteMultiTag, b.createMultiTag(nm, "t", b.getDataArray((ndsize_t) 0))) }
+#undef REPLACE
+        }
+    } catch (const std::exception &) { return 1; }
+    cnt.inc("replace_member.kind" + std::to_string(kind));
+    return 0;
+}
+
 int World::exec_entity(const Op &op) {
     const int *a = op.a;
     switch (op.kind) {
@@ -291,7 +413,7 @@ int World::exec_entity(const Op &op) {
     }
     case OP_delete_block: {
         Block b = blk(a[0]); if (!b) return 2;
-        take_victim_handles(b.id()); VICTIM(0, block, b);
+        take_victim_handles(b.id()); last_deleted_name = b.name(); VICTIM(0, block, b);
         int how = ((unsigned) a[1]) % 3;
         arg_class = how == 0 ? "by-name" : how == 1 ? "by-id" : "by-handle";
         TRY(del_result = (how == 0 ? f.deleteBlock(b.name()) : how == 1 ? f.deleteBlock(b.id()) : f.deleteBlock(b)));
@@ -312,7 +434,7 @@ int World::exec_entity(const Op &op) {
     }
     case OP_delete_section: {
         Section s = section_at(a[0]); if (!s) return 2;
-        take_victim_handles(s.id()); VICTIM(7, section, s);
+        take_victim_handles(s.id()); last_deleted_name = s.name(); VICTIM(7, section, s);
         if (s.sectionCount()) { Section c = s.getSection((ndsize_t) 0); VICTIM(7, section, c); }
         if (s.propertyCount()) { Property p = s.getProperty((ndsize_t) 0); VICTIM(8, property, p); }
         int how = ((unsigned) a[1]) % 3;
@@ -339,7 +461,7 @@ int World::exec_entity(const Op &op) {
     case OP_delete_source: {
         Block b = blk(a[0]); if (!b) return 2;
         Source s = source_at(a[0], a[1]); if (!s) return 2;
-        take_victim_handles(s.id()); VICTIM(6, source, s);
+        take_victim_handles(s.id()); last_deleted_name = s.name(); VICTIM(6, source, s);
         if (s.sourceCount()) { Source c = s.getSource((ndsize_t) 0); VICTIM(6, source, c); }
         int how = ((unsigned) a[2]) % 3;
         Source par = s.parentSource();
@@ -350,7 +472,7 @@ int World::exec_entity(const Op &op) {
     case OP_delete_array: {
         Block b = blk(a[0]); if (!b) return 2;
         DataArray x = arr_at(a[0], a[1]); if (!x) return 2;
-        take_victim_handles(x.id()); VICTIM(1, array, x);
+        take_victim_handles(x.id()); last_deleted_name = x.name(); VICTIM(1, array, x);
         int how = ((unsigned) a[2]) % 3;
         bool alias = false;
         try { if (x.dimensionCount() == 1 && x.getDimension(1).dimensionType() == DimensionType::Range && x.getDimension(1).asRangeDimension().alias()) alias = true; } catch (const std::exception &) {}
@@ -360,7 +482,7 @@ int World::exec_entity(const Op &op) {
     case OP_delete_frame: {
         Block b = blk(a[0]); if (!b) return 2;
         DataFrame x = frame_at(a[0], a[1]); if (!x) return 2;
-        take_victim_handles(x.id()); VICTIM(2, frame, x);
+        take_victim_handles(x.id()); last_deleted_name = x.name(); VICTIM(2, frame, x);
         int how = ((unsigned) a[2]) % 3;
         arg_class = how == 0 ? "by-name" : how == 1 ? "by-id" : "by-handle";
         TRY(del_result = (how == 0 ? b.deleteDataFrame(x.name()) : how == 1 ? b.deleteDataFrame(x.id()) : b.deleteDataFrame(x)));
@@ -378,7 +500,7 @@ int World::exec_entity(const Op &op) {
     case OP_delete_tag: {
         Block b = blk(a[0]); if (!b) return 2;
         Tag x = tag_at(a[0], a[1]); if (!x) return 2;
-        take_victim_handles(x.id()); VICTIM(3, tag, x);
+        take_victim_handles(x.id()); last_deleted_name = x.name(); VICTIM(3, tag, x);
         int how = ((unsigned) a[2]) % 3;
         arg_class = how == 0 ? "by-name" : how == 1 ? "by-id" : "by-handle";
         TRY(del_result = (how == 0 ? b.deleteTag(x.name()) : how == 1 ? b.deleteTag(x.id()) : b.deleteTag(x)));
@@ -398,7 +520,7 @@ int World::exec_entity(const Op &op) {
     case OP_delete_mtag: {
         Block b = blk(a[0]); if (!b) return 2;
         MultiTag x = mtag_at(a[0], a[1]); if (!x) return 2;
-        take_victim_handles(x.id()); VICTIM(4, mtag, x);
+        take_victim_handles(x.id()); last_deleted_name = x.name(); VICTIM(4, mtag, x);
         int how = ((unsigned) a[2]) % 3;
         arg_class = how == 0 ? "by-name" : how == 1 ? "by-id" : "by-handle";
         TRY(del_result = (how == 0 ? b.deleteMultiTag(x.name()) : how == 1 ? b.deleteMultiTag(x.id()) : b.deleteMultiTag(x)));
@@ -412,7 +534,7 @@ int World::exec_entity(const Op &op) {
     case OP_delete_group: {
         Block b = blk(a[0]); if (!b) return 2;
         Group x = group_at(a[0], a[1]); if (!x) return 2;
-        take_victim_handles(x.id()); VICTIM(5, group, x);
+        take_victim_handles(x.id()); last_deleted_name = x.name(); VICTIM(5, group, x);
         int how = ((unsigned) a[2]) % 3;
         arg_class = how == 0 ? "by-name" : how == 1 ? "by-id" : "by-handle";
         TRY(del_result = (how == 0 ? b.deleteGroup(x.name()) : how == 1 ? b.deleteGroup(x.id()) : b.deleteGroup(x)));
@@ -702,6 +824,8 @@ int World::exec_entity(const Op &op) {
     case OP_force_id: TRY(f.forceId());
     case OP_mk_graph: return mk_graph(op);
     case OP_mk_fitted: return mk_fitted(op);
+    case OP_del_misdirected: return del_misdirected(op);
+    case OP_replace_member: return replace_member(op);
     default: return 2;
     }
 }
